@@ -207,3 +207,17 @@ pub fn terr_kind(k: &TestErrorKind) -> &'static str {
         _ => "unknownKind",
     }
 }
+
+/// the `actual` / `err` payload of a test error (what the failure reports as the real reason)
+pub fn terr_detail(k: &TestErrorKind) -> String {
+    match k {
+        TestErrorKind::Fail { err, .. } => err.to_string(),
+        TestErrorKind::SystemFail { err, .. } => err.to_string(),
+        TestErrorKind::SystemStdoutMismatch { actual_stdout, .. } => actual_stdout.clone(),
+        TestErrorKind::ErrorMismatch { err, .. } => err.to_string(),
+        TestErrorKind::StatementResultMismatch { actual, .. } => actual.clone(),
+        TestErrorKind::QueryResultMismatch { actual, .. } => actual.clone(),
+        TestErrorKind::QueryResultColumnsMismatch { actual, .. } => actual.clone(),
+        _ => String::new(),
+    }
+}
